@@ -64,7 +64,7 @@ theorem validateEventPath_concrete {ctx : Ctx} {node : Node} (ep cl ev : Nat)
         rw [checkEventAccess_spec hwf hcan hl (eventsWF_table hev he hc)]
         cases permittedEvent ctx e c l <;> rfl
 
-theorem matchesOpt_iff' (w : Option Nat) (id : Nat) : (w.isNone || w == some id) = matchesOpt w id := by
+theorem matchesOpt_iff2 (w : Option Nat) (id : Nat) : (w.isNone || w == some id) = matchesOpt w id := by
   cases w <;> simp [matchesOpt]
 
 /-- a requested path that matches an occurrence whose own path validates, validates too (it is a
@@ -107,20 +107,20 @@ theorem validate_of_match {ctx : Ctx} {node : Node} {p : Path} {o : EventOcc}
             rw [this]
             exact hv
 
-theorem filterMap_congr' {α β : Type} {f g : α → Option β} : ∀ {l : List α},
+theorem filterMap_congr_mem {α β : Type} {f g : α → Option β} : ∀ {l : List α},
     (∀ a ∈ l, f a = g a) → l.filterMap f = l.filterMap g
   | [], _ => rfl
   | a :: as, h => by
     have h1 := h a (by simp)
-    have h2 := filterMap_congr' (l := as) (fun b hb => h b (List.mem_cons_of_mem _ hb))
+    have h2 := filterMap_congr_mem (l := as) (fun b hb => h b (List.mem_cons_of_mem _ hb))
     simp only [List.filterMap_cons, h1, h2]
 
-theorem any_congr' {α : Type} {f g : α → Bool} : ∀ {l : List α},
+theorem any_congr_mem {α : Type} {f g : α → Bool} : ∀ {l : List α},
     (∀ a ∈ l, f a = g a) → l.any f = l.any g
   | [], _ => rfl
   | a :: as, h => by
     have h1 := h a (by simp)
-    have h2 := any_congr' (l := as) (fun b hb => h b (List.mem_cons_of_mem _ hb))
+    have h2 := any_congr_mem (l := as) (fun b hb => h b (List.mem_cons_of_mem _ hb))
     simp only [List.any_cons, h1, h2]
 
 theorem isOkE_match (x : Except Status Unit) : isOkE x = true ↔ x = .ok () := by
@@ -153,7 +153,7 @@ theorem reportEvents_eq_expectedSilent (ctx : Ctx) (node : Node) (ff : Bool) (pa
   congr 1
   · -- statuses
     rw [List.filter_filterMap]
-    apply filterMap_congr'
+    apply filterMap_congr_mem
     intro p _
     cases p with
     | mk e c l =>
@@ -199,10 +199,10 @@ theorem reportEvents_eq_expectedSilent (ctx : Ctx) (node : Node) (ff : Bool) (pa
       have hv : isOkE (validateEventPath ctx node o.path) = true := by rw [hvalid, hst]
       have hany : paths.any (fun p => eventMatchesPath ctx node p o) =
           paths.any (fun p => matchesOpt p.endpoint o.ep && matchesOpt p.cluster o.cl && matchesOpt p.leaf o.ev) := by
-        apply any_congr'
+        apply any_congr_mem
         intro p _
         unfold eventMatchesPath
-        rw [matchesOpt_iff', matchesOpt_iff', matchesOpt_iff']
+        rw [matchesOpt_iff2, matchesOpt_iff2, matchesOpt_iff2]
         cases hm : (matchesOpt p.endpoint o.ep && matchesOpt p.cluster o.cl && matchesOpt p.leaf o.ev) with
         | false => simp
         | true => simp [validate_of_match hv hm]
